@@ -274,7 +274,93 @@ StructOperations::find_struct_definition(const std::string &struct_name) {
     if (it != interpreter_->struct_definitions_.end()) {
         return &it->second;
     }
+    if (struct_name.find('<') != std::string::npos) {
+        return instantiate_generic_struct(struct_name);
+    }
     return nullptr;
+}
+
+// The parser instantiates `Box<int>` when it meets that spelling in the source.
+// An instantiation that only comes into being at run time - `Box<T> b;` in the
+// body of f<T>, instantiated as f<int> - is created here on first lookup, in
+// the same way (cf. RecursiveParser::instantiateGenericStruct).
+const StructDefinition *
+StructOperations::instantiate_generic_struct(const std::string &struct_name) {
+    size_t lt_pos = struct_name.find('<');
+    size_t gt_pos = struct_name.rfind('>');
+    if (lt_pos == std::string::npos || gt_pos == std::string::npos ||
+        gt_pos < lt_pos || gt_pos + 1 != struct_name.size()) {
+        return nullptr;
+    }
+
+    auto &definitions = interpreter_->struct_definitions_;
+    std::string base_name = trim_copy(struct_name.substr(0, lt_pos));
+    auto base_it = definitions.find(base_name);
+    if (base_it == definitions.end() || !base_it->second.is_generic) {
+        return nullptr;
+    }
+
+    // 型引数をトップレベルのカンマで分割（Duo<Box<int>, long> など）
+    std::vector<std::string> type_arguments;
+    std::string current;
+    int depth = 0;
+    for (size_t i = lt_pos + 1; i < gt_pos; ++i) {
+        char c = struct_name[i];
+        if (c == ',' && depth == 0) {
+            type_arguments.push_back(trim_copy(current));
+            current.clear();
+            continue;
+        }
+        depth += (c == '<') - (c == '>');
+        current += c;
+    }
+    type_arguments.push_back(trim_copy(current));
+
+    // base_it->second はこの後の再帰的なインスタンス化でも有効（std::map）
+    const StructDefinition &generic_base = base_it->second;
+    if (type_arguments.size() != generic_base.type_parameters.size()) {
+        return nullptr;
+    }
+
+    // パーサーと同じ表記 "Duo<int, long>" で登録する
+    std::string instantiated_name = base_name + "<";
+    std::unordered_map<std::string, std::string> type_map;
+    for (size_t i = 0; i < type_arguments.size(); ++i) {
+        if (type_arguments[i].empty()) {
+            return nullptr;
+        }
+        instantiated_name += (i > 0 ? ", " : "") + type_arguments[i];
+        type_map[generic_base.type_parameters[i]] = type_arguments[i];
+    }
+    instantiated_name += ">";
+    auto existing = definitions.find(instantiated_name);
+    if (existing != definitions.end()) {
+        return &existing->second;
+    }
+
+    if (!generic_base.interface_bounds.empty()) {
+        interpreter_->interface_operations_->validate_interface_bounds(
+            instantiated_name, generic_base.type_parameters, type_arguments,
+            generic_base.interface_bounds);
+    }
+
+    StructDefinition instantiated = generic_base;
+    instantiated.name = instantiated_name;
+    instantiated.is_generic = false;
+    instantiated.is_forward_declaration = false;
+    instantiated.type_parameter_bindings = type_map;
+    for (auto &member : instantiated.members) {
+        auto bound = type_map.find(member.type_alias);
+        if (bound != type_map.end()) {
+            member.type_alias = bound->second;
+            member.type = interpreter_->type_manager_->string_to_type_info(
+                member.type_alias);
+        }
+    }
+
+    debug_msg(DebugMsgId::INTERPRETER_STRUCT_SYNCED, instantiated_name.c_str(),
+              instantiated.members.size());
+    return &(definitions[instantiated_name] = instantiated);
 }
 
 void StructOperations::sync_struct_definitions_from_parser(
